@@ -1,5 +1,6 @@
 """C19 — Socket timeout options are tracked per live socket without crashing (structural clauses)."""
 from rules.common import start
+from rules import wave3
 from rules import selector, misc
 
 
@@ -16,4 +17,6 @@ def run(tier):
     selector.invalidate_rule(run, f, "C19-INVALIDATE")
     selector.direction_rule(run, f, "C19-DIRECTION")
     misc.time_limit_rule(run, f, "C19-LIMIT-VALUE")
+    # clauses added for the wave-2 seeds (rules/wave2.py; DESIGN 12a)
+    wave3.limit_writers_rule(run, f, "C19-WRITERS")
     return run.finish()
